@@ -39,24 +39,24 @@ type SolverStats struct {
 }
 
 type Solver struct {
-	kind      string // z3 | z3-new | cvc5 | cvc5-int
-	timeoutMs int
-	cmd       *exec.Cmd
-	in        *bufio.Writer
-	inRaw     io.WriteCloser
-	out       *bufio.Reader
-	lines     chan string
-	defined   map[int32]bool
-	ndefs     int
-	stack     []*Term
-	Stats     SolverStats
-	log       io.Writer // optional transcript
-	tt        *TermTable
-	hung      bool
-	effTO     int
+	kind         string // z3 | z3-new | cvc5 | cvc5-int
+	timeoutMs    int
+	cmd          *exec.Cmd
+	in           *bufio.Writer
+	inRaw        io.WriteCloser
+	out          *bufio.Reader
+	lines        chan string
+	defined      map[int32]bool
+	ndefs        int
+	stack        []*Term
+	Stats        SolverStats
+	log          io.Writer // optional transcript
+	tt           *TermTable
+	hung         bool
+	effTO        int
 	bytesAtStart int64
-	curTO     int // timeout currently set in the solver process
-	nextTO    int // timeout to use for the next Check (0 = default)
+	curTO        int // timeout currently set in the solver process
+	nextTO       int // timeout to use for the next Check (0 = default)
 }
 
 func NewSolver(kind string, timeoutMs int, tt *TermTable) *Solver {
